@@ -160,6 +160,21 @@ def make_entry(y, configs, pid, tier="quick", text=None, hw=False, rng=None, cap
     meta = {"id": pid, "yaml": y, "text": text, "family": family, "hw": hw, "n_inputs": sum(len(s) for s in sups),
             "variants": (2 if e["usesHalo"] else 1) * (2 if e["usesNonUniform"] else 1)}
     meta.update(extra or {})
+    pts = []
+
+    def walk(x):
+        if isinstance(x, dict):
+            if x.get("e") == "lambda" and x.get("ieee"):
+                pts.extend(sorted({tuple(sorted([f["arg"]] + f["fv"])) for f in x["ieee"]}))
+            for v in x.values():
+                walk(v)
+        elif isinstance(x, list):
+            for v in x:
+                walk(v)
+
+    walk(code)
+    if pts:
+        meta["ieee_points"] = [list(p) for p in sorted(set(pts))]      # coordinate values at which a projection misfires in double precision
     return e, meta
 
 
